@@ -165,12 +165,8 @@ def run(ctx):
     enc = repo.func("Codec.encode")
     em = emitted_fields(enc, fo)
     emitted = {t for t, e, c, lst in em} | {"10", "35"}  # CheckSum / MsgType are emitted through string formatting
-    skip = set()
-    for n in walk_no_nested(enc):
-        if isinstance(n, ast.Compare) and len(n.ops) == 1 and isinstance(n.ops[0], ast.In) and isinstance(n.comparators[0], (ast.Set, ast.Tuple, ast.List)):
-            p = getattr(n, "_parent", None)
-            if isinstance(p, ast.If) and any(isinstance(s, ast.Continue) for s in p.body):
-                skip = {fo.tag(e) for e in n.comparators[0].elts}
+    from rules.c01 import encoder_skip_set
+    skip = encoder_skip_set(enc, fo) or set()
     must = emitted - skip
     ctx.instance(R4, "_process_resend[deleted ⊇ emitted-not-skipped]", must <= dset,
                  f"the replayed copy keeps tag(s) {sorted(must - dset)} that the encoder writes itself and does not skip: they go out twice", loc(lp),
